@@ -691,6 +691,20 @@ def check_mark_before_recursion(model: RepoModel, rep, RID: str, rels: Iterable[
                             for x in ast.walk(i))
                 if not exits:
                     continue
+                # the memo only grows while the traversal runs: un-marking on the way back ("so that other branches may pass here again")
+                # turns "already explored" into "on the current path" -- a region that leads nowhere is then explored once per path into it
+                shrinks = [c for c in walk_no_nested(f.node) if isinstance(c, ast.Call) and isinstance(c.func, ast.Attribute) and c.func.attr in ("discard", "remove", "pop", "clear")
+                           and norm(c.func.value) == M] + [d for d in walk_no_nested(f.node) if isinstance(d, ast.Delete) and any(
+                               isinstance(t, ast.Subscript) and norm(t.value) == M for t in d.targets)]
+                n += 1
+                key_s = f"{rel}::{f.qualname}::the memo `{M}` only grows during the traversal"
+                if shrinks:
+                    rep.violation(RID, key_s, rel, shrinks[0].lineno,
+                                  f"{f.qualname} removes entries from its memo (`{norm(shrinks[0])[:60]}`): a node is then marked only while it is on the current "
+                                  f"path, so every dead-end region is re-explored once per path that leads into it -- exponential in the number of "
+                                  f"diamond-shaped stages of the graph")
+                else:
+                    rep.holds(RID, key_s, rel, f.node.lineno, "no discard / remove / pop / clear / del on the memo")
                 call_nodes = {}
                 for nd in cfg.g.nodes:
                     for c in cfg.calls_at(nd):
